@@ -754,7 +754,7 @@ def reader_part(ctx, fl, verdict, stats):
         lits.append(f"({il}, {ol}, {x_lit}, ({cstr(text)}, {skip}), {ptbl_lit}, {ftbl_lit}, ({cmat(ins)}, {cmat(outs)}), {expect})")
         index.append(("reader", what))
         if case < 2:
-            stats["samples"].append({"what": what, "result": (got or err)[:160]})
+            stats["samples"].append({"what": what, "result": str(got if err is None else err)[:160]})
     ctype = ("list (string * float * float * bool * float) * list string * (string * bool * bool * bool) * (string * Z) "
              "* list (string * option float) * list (float * string) * (list (list float) * list (list float)) * result string")
     return [(ctype, "reader_check", lits)], index
